@@ -419,7 +419,7 @@ def colb_stream(ctx, ExcelCompiler):
 
 
 # ------------------------------------------------------------------ frozen numpy scalars of any magnitude
-@known_predicate('C08-frozen-numpy-int')
+# repaired in /repo 7a4d677: no longer a registered predicate (a recurrence is reported)
 def _frozen_numpy_int(case):
     """numpy-frozen stream, the save/load leg raises, and trim_graph froze a cell holding a numpy INTEGER (listed by
     the stream from the trimmed cell map: an all-integer SUMPRODUCT, FACTDOUBLE) - nothing else is matched"""
